@@ -675,6 +675,217 @@ def gen_custom(rng, tier):
 
 
 # ---------------------------------------------------------------------------------------------------------
+# value coincidences between a nested record and its enclosing window (and among the nested records)
+#
+# The generators above give every record its own random words, so a nested record practically never carries a word of
+# the window's START / END record.  Here the words of a window and of everything nested in it are drawn from a SMALL pool
+# per window, and a `mode` fixes which nested candidates repeat words of the START / END records: the first one / only
+# a later one / none / all / a random subset.  Which record a composite reads is a matter of position and kind alone,
+# so the description-based oracle (expect_*) is unchanged.
+
+CO_MODES = ('first', 'later', 'none', 'all', 'random')
+
+
+def co_marks(rng, n, mode):
+    """Which of n nested candidates repeat words of the enclosing START / END records."""
+    if mode == 'first':
+        return [i == 0 for i in range(n)]
+    if mode == 'later':
+        j = rng.randrange(1, n) if n > 1 else 0
+        return [i == j for i in range(n)]
+    if mode == 'none':
+        return [False] * n
+    if mode == 'all':
+        return [True] * n
+    return [rng.random() < 0.5 for _ in range(n)]
+
+
+def co_masks(n):
+    return [list(m) for m in itertools.product((False, True), repeat=n)]
+
+
+def pick(rng, pool, p, fresh):
+    return rng.choice(pool) if pool and rng.random() < p else fresh()
+
+
+def vm_window_co(sc, rng, tid, seq, marks, result=0):
+    """A page-fault window whose END repeats the START's address words (as the kernel writes them) and whose nested
+    in-range records repeat — where marked — the fault address / other START and END words as their own address and pid;
+    unmarked candidates share words among themselves."""
+    addr = rng.choice([0x16b99c000, 0x1000 * rng.randrange(1, 1 << 30), rng.randrange(1, 60000)])
+    hi = rng.choice([addr >> 32, rng.randrange(0, 4), tid])
+    ftype = rng.randrange(1, 12)
+    st_w = [hi, addr, rng.choice([0, 1]), rng.choice([0, 0, tid])]
+    en_w = [rng.choice([hi, 0]), rng.choice([addr, addr, 0]), result, ftype]
+    win_addr = [addr, addr, addr, st_w[0], en_w[0], en_w[1], tid]
+    win_pid = [tid, st_w[0], st_w[2], st_w[3], en_w[3], addr, en_w[1]]
+    # the pool of the unmarked candidates: a few values none of which is a word of START / END
+    taken = set(st_w + en_w + [tid])
+    own_addr = [a for a in (0x104a30000, 0x104a34000, 0x7000) if a not in taken]
+    own_pid = [p for p in (41, 95, 4242) if p not in taken]
+    own_flags = [rng.randrange(1, 12) | (rng.choice([0, 1, 3, 5, 7, 0x13]) << 8) | (rng.randrange(0, 4) << 16) for _ in range(2)]
+    nested, specs, ci = [], [], 0
+    for k in seq:
+        if k in VM_EID:
+            if marks[ci]:
+                a0 = pick(rng, win_addr, 0.9, lambda: rng.choice(own_addr))
+                a3 = pick(rng, win_pid, 0.5, lambda: rng.choice(own_pid))
+                # the flags word may repeat the END's fault-type word (protection 0, tag 0) or the END's type byte
+                a1 = rng.choice([ftype, ftype | (rng.choice([1, 3, 5]) << 8), rng.choice(own_flags)])
+                a2 = rng.choice([addr, 0, rng.randrange(0, 1 << 20)])
+            else:
+                a0 = rng.choice(own_addr)
+                a3 = rng.choice(own_pid)
+                a1 = rng.choice(own_flags)
+                a2 = rng.randrange(0, 1 << 20)
+            ci += 1
+            r = rec(VM_EID[k], rng.choice([NONE, NONE, ALL, START]), [a0, a1, a2, a3])
+            nested.append(r)
+            specs.append(r)
+        else:
+            u = unrelated(k, rng)
+            nested += u
+            specs += u
+    st = rec(E_VMFAULT, START, st_w)
+    en = rec(E_VMFAULT, END, en_w)
+    # an in-range record of the fault address just outside the window must not matter either
+    pre = [rec(rng.choice([R_INT, R_EXT, R_SHC]), NONE, [addr, rng.choice(own_flags), 0, rng.choice(own_pid)])] if rng.random() < 0.3 else []
+    post = [rec(rng.choice([R_INT, R_EXT, R_SHC]), NONE, [addr, rng.choice(own_flags), 0, rng.choice(own_pid)])] if rng.random() < 0.3 else []
+    sc.add(tid, pre + [st] + specs + [en] + post)
+    sc.composites.append({'kind': 'vmfault', 'start': st, 'end': en, 'nested': nested})
+
+
+def launch_window_co(sc, rng, tid, seq, marks):
+    """A launch window whose nested map records repeat — where marked — the main executable's address as load address
+    and words of the START record inside the uuid; unmarked ones share uuids and load addresses among themselves
+    (incl. byte-identical payloads)."""
+    mh = rng.choice([0x100000000, 0x1000 * rng.randrange(1, 1 << 30), 0x2000])
+    st_w = [rng.choice([0, tid]), mh, rng.choice([0, mh]), 0]
+    uu_win = [mh.to_bytes(8, 'little') + mh.to_bytes(8, 'little'), bytes(16), st_w[0].to_bytes(8, 'little') + mh.to_bytes(8, 'little')]
+    uu_own = [rng.randbytes(16) for _ in range(2)]
+    ad_own = [a for a in (0x1000, 0x3000, mh + 0x4000, mh - 0x1000) if a != mh]
+    nested, ci = [], 0
+    for k in seq:
+        if k in ('map', 'shared'):
+            if marks[ci]:
+                a = pick(rng, [mh, mh, st_w[0], st_w[2]], 0.9, lambda: rng.choice(ad_own))
+                u = pick(rng, uu_win, 0.5, lambda: rng.choice(uu_own))
+                fs = rng.choice([mh, tid, 7])
+            else:
+                a, u, fs = rng.choice(ad_own), rng.choice(uu_own), 7
+            ci += 1
+            nested.append(rec(E_MAPA if k == 'map' else E_SHA, rng.choice([NONE, NONE, ALL]),
+                              data=u + a.to_bytes(8, 'little') + fs.to_bytes(8, 'little')))
+        else:
+            nested += unrelated(k, rng)
+    st = rec(E_LAUNCH, START, st_w)
+    en = rec(E_LAUNCH, END, [0, rng.choice([0, mh]), 0, 0])
+    pre = [rec(E_MAPA, NONE, data=rng.choice(uu_own) + mh.to_bytes(8, 'little') + (7).to_bytes(8, 'little'))] if rng.random() < 0.3 else []
+    post = [rec(E_SHA, NONE, data=rng.choice(uu_own) + mh.to_bytes(8, 'little') + (7).to_bytes(8, 'little'))] if rng.random() < 0.3 else []
+    sc.add(tid, pre + [st] + nested + [en] + post)
+    sc.composites.append({'kind': 'launch', 'start': st, 'end': en, 'window': [st] + nested + [en]})
+
+
+def sampler_window_co(sc, rng, tid, flags, seq, marks):
+    """A sampler window whose nested thread-info / stack-header / stack-data records repeat — where marked — the
+    window's own thread id, flags word and action id; unmarked ones share their words among themselves."""
+    aid = rng.choice([1, 2, tid])
+    st_w = [flags, aid, rng.choice([0, tid]), 0]
+    win = [tid, flags, aid]
+    pids, tids = [33, 34], [100, 101]
+    nud = sum(1 for k in seq if k == 'udata')
+    counts = [0, 1, 4, max(4 * nud - 1, 0), 4 * nud, 4 * nud + 1]
+    own_words = [rng.randrange(1 << 40) for _ in range(3)]
+    nested, ci = [], 0
+    for k in seq:
+        if k in ('thd', 'hdr', 'udata'):
+            m = marks[ci]
+            ci += 1
+            if k == 'thd':
+                w = [pick(rng, win, 0.5 if m else 0, lambda: rng.choice(pids)),
+                     pick(rng, [tid, tid, aid], 0.9 if m else 0, lambda: rng.choice(tids)), 0x1000, rng.randrange(0, 0x80)]
+                nested.append(rec(E_THD, rng.choice([NONE, NONE, ALL, START]), w))
+            elif k == 'hdr':
+                w = [pick(rng, [flags & 0x1ff, aid, tid & 0x1ff], 0.8 if m else 0, lambda: rng.choice([0, 1, 5, 0x21])),
+                     pick(rng, [aid, flags, tid], 0.5 if m else 0, lambda: rng.choice(counts)), 0, 0]
+                nested.append(rec(E_UHDR, NONE, w))
+            else:
+                w = [pick(rng, win, 0.6 if m else 0, lambda: rng.choice(own_words)) for _ in range(4)]
+                nested.append(rec(E_UDATA, NONE, w))
+        else:
+            nested += unrelated(k, rng)
+    st = rec(E_PERF, START, st_w)
+    en = rec(E_PERF, END, [rng.choice([flags, flags, 0, rng.randrange(0, 1 << 14)]), aid, 0, 0])
+    sc.add(tid, [st] + nested + [en])
+    sc.composites.append({'kind': 'sampler', 'start': st, 'end': en, 'window': [st] + nested + [en]})
+
+
+def gen_coincide(rng, tier):
+    cases = []
+    big = [5, 0x5151, 101]              # window thread ids (101: also a thread id the nested thread-info records name)
+
+    def done(sc, kind, mode):
+        route = rng.choice(P.ROUTES)            # the same window through TracesParser and through a dump file
+        sc.tags = ['co-' + kind, mode, route]
+        c = sc.case()
+        c['route'] = route
+        cases.append(c)
+
+    # page faults: every sequence of 1..3 in-range candidates x every subset of them marked
+    for n in (1, 2, 3):
+        for kinds in itertools.product('IPES', repeat=n):
+            for marks in co_masks(n):
+                sc = Scenario(rng)
+                seq, m = [], []
+                for k, mk in zip(kinds, marks):
+                    if rng.random() < 0.3:
+                        seq.append(rng.choice(['sched', 'near-lo', 'near-hi']))
+                    seq.append(k)
+                    m.append(mk)
+                vm_window_co(sc, rng, rng.choice(big), seq, m, result=0)
+                done(sc, 'vmfault', 'enum')
+    reps = 1 if tier == 'quick' else 10
+    for _ in range(reps):
+        for mode in CO_MODES:
+            for _ in range(120):
+                sc = Scenario(rng)
+                seq = rng.choices(VM_ALPHA, weights=[3, 2, 3, 3, 1, 1, 1, 1], k=rng.choice([1, 2, 3, 4, 6]))
+                n = sum(1 for k in seq if k in VM_EID)
+                vm_window_co(sc, rng, rng.choice(big), seq, co_marks(rng, n, mode),
+                             result=rng.choice([0, 0, 0, 0, 1, 14]))
+                if rng.random() < 0.3:              # a second window on another thread drawing from its own pool
+                    seq2 = rng.choices(VM_ALPHA[:5], k=rng.randrange(0, 4))
+                    vm_window_co(sc, rng, 6, seq2, co_marks(rng, sum(1 for k in seq2 if k in VM_EID), 'random'))
+                done(sc, 'vmfault', mode)
+            for _ in range(60):
+                sc = Scenario(rng)
+                seq = rng.choices(['map', 'shared', 'mapb', 'unmap', 'sched'], weights=[4, 4, 1, 1, 1], k=rng.randrange(1, 7))
+                n = sum(1 for k in seq if k in ('map', 'shared'))
+                launch_window_co(sc, rng, rng.choice(big), seq, co_marks(rng, n, mode))
+                done(sc, 'launch', mode)
+            for _ in range(100):
+                sc = Scenario(rng)
+                seq = rng.choices(['thd', 'hdr', 'udata', 'sched', 'kstack'], weights=[4, 3, 4, 1, 1], k=rng.randrange(1, 8))
+                n = sum(1 for k in seq if k in ('thd', 'hdr', 'udata'))
+                flags = rng.choice([1, 8, 9, 9, 0xb, 0x3fff, 0, rng.randrange(0, 1 << 14)])
+                sampler_window_co(sc, rng, rng.choice(big), flags, seq, co_marks(rng, n, mode))
+                done(sc, 'sampler', mode)
+    # launch / sampler: every sequence of 1..3 candidates x every subset marked
+    for n in (1, 2, 3):
+        for kinds in itertools.product(('map', 'shared'), repeat=n):
+            for marks in co_masks(n):
+                sc = Scenario(rng)
+                launch_window_co(sc, rng, rng.choice(big), list(kinds), marks)
+                done(sc, 'launch', 'enum')
+        for kinds in itertools.product(('thd', 'hdr', 'udata'), repeat=n):
+            for marks in co_masks(n):
+                sc = Scenario(rng)
+                sampler_window_co(sc, rng, rng.choice(big), rng.choice([9, 9, 1, 8, 0xb]), list(kinds), marks)
+                done(sc, 'sampler', 'enum')
+    return cases
+
+
+# ---------------------------------------------------------------------------------------------------------
 
 def check_attributes(rep):
     """The two reflective facts the model hard-codes: attribute positions of RealFaultAddress*, and which dataclasses
@@ -713,7 +924,7 @@ def kind_of(c, got):
 
 
 def section(rep, name, cases, rule):
-    core.run_section(rep, name, cases, line_fn=P.line, impl_fn=P.impl_fn, oracle_fn=oracle, skip_fn=P.unmodelled,
+    core.run_section(rep, name, cases, line_fn=P.line, impl_fn=P.impl_route_fn, oracle_fn=oracle, skip_fn=P.unmodelled,
                      nontrivial_fn=nontrivial, kind_fn=kind_of, rule=rule,
                      sample_fn=lambda c: {'section': name, 'events': len(c['events']), 'expect': c['desc']['expect'][:2]})
 
@@ -739,6 +950,19 @@ def correspondence(rep, rng, tier):
             'header first/last/in the middle; random windows with syscalls, kernel-stack records, other-thread sampler records '
             'and windows, single-record PERF_Event, renamed ids; oracle = thread info / frames / flags / text / threads_pids '
             'recomputed from the description')
+    section(rep, 'coincidences', gen_coincide(rng, tier),
+            'value coincidences between nested records and their window: the words of a window (START, END; the END repeats '
+            'the START\'s address words as the kernel writes them) and of its nested records come from a small per-window pool, '
+            'so that nested candidates carry the fault address / main-executable address / sampler flags, action id and the '
+            'window\'s own thread id as their address, pid, load address, uuid words, thread id, header flags, frame count or '
+            'stack words, and unmarked candidates share addresses, pids, flag words, uuids (byte-identical payloads) among '
+            'themselves; page faults: every sequence of 1..3 candidates over {Internal, Purgeable, External, SharedCache} x '
+            'every subset of them coinciding with START/END; launch / sampler: every sequence of 1..3 candidates x every '
+            'subset; random windows (1..6 nested records, unrelated records in between, in-range records of the fault address '
+            'just before START / after END, result != 0, second windows on other threads) in the modes first candidate '
+            'coincides / only a later one / none / all / random subset; each window fed to TracesParser.feed_generator or, '
+            'packed into a version-2 / version-3 dump, read through PyKdebugParser.traces; oracle = the same description-based '
+            'one (which record is read depends on position and kind only)')
     section(rep, 'custom-codes', gen_custom(rng, tier),
             'code tables that name an in-range id after ANOTHER handler (16 handler names incl. MACH_vmfault itself, '
             'trace-domain names, lookups): outside the property, model vs. code only (oracle checks result/type when a trace '
@@ -751,7 +975,7 @@ def replay(path):
         r = json.load(fd)
     rp = r['replay']
     c = rp['case']
-    got = P.impl_fn(c)
+    got = P.impl_route_fn(c)
     model = core.drive([P.line(c)])[0]
     print('impl :', got)
     print('model:', model)
